@@ -157,6 +157,7 @@ type FuncVC struct {
 	frameT   map[string]modTarget
 	frameAll bool
 	allocBoundTerm string
+	cardDone map[string]bool
 }
 
 type mapIter struct {
